@@ -451,6 +451,8 @@ func c01Attacks() []attack {
 		{"encrypted-garbage-plaintext", func(x *c01x) { x.replaceSlot(Enc(x.a, 2)) }},
 		{"encrypted-rootless-plaintext", func(x *c01x) { x.replaceSlot(Enc(x.a, 3)) }},
 		{"attacker-encrypts-evil", func(x *c01x) { x.replaceSlot(Enc(x.evil(""), 0)) }},
+		{"two-encrypted-data-genuine-first", func(x *c01x) { x.replaceSlot(EncDouble(x.a, false)) }},
+		{"two-encrypted-data-decoy-first", func(x *c01x) { x.replaceSlot(EncDouble(x.a, true)) }},
 		{"attacker-reencrypts-genuine", func(x *c01x) { x.replaceSlot(Enc(x.a, 0)) }},
 		{"attacker-encrypts-evil-beside-genuine", func(x *c01x) { x.resp.InsertAt(x.slotIndex(), Enc(x.evil(""), 0)) }},
 	}
